@@ -23,34 +23,40 @@
   semantics agree on the fragment) with C08's `lowerS_run_partial`.
 
   The scalar operators inside that MIR semantics are the GENERATED table
-  composition: `mir_binop_generated`, `mir_unop_generated` — what
-  `LowerS.evalValue` computes for `binop` / `neg` / `not` on operands in the
-  `i32` range is what `lower_binop` (src/lir/lower.rs, generated) followed by
-  the generated codegen arm on CLIF semantics computes (T1 / T2 of
-  `Props/C01.lean`); `spec_binop_generated` says the same of `Spec`'s operator
+  composition: `lower_correct_tables_partial` is T5 for the executable semantics
+  `Model/C01MirRun` of structured MIR in which every `binop` / `neg` / `not` is
+  computed by `lower_binop` (src/lir/lower.rs, generated) followed by the
+  generated codegen arm on CLIF semantics (T1 / T2 of `Props/C01.lean`): for
+  arguments in the `i32` range it returns exactly Spec's value for every
+  sufficiently large fuel (`exec_sound` + `execC_complete`: it is sound and, on
+  the scalar code resolved programs lower to, complete for `LowerS.ExecC`; the
+  integers stay in range).  `mir_binop_generated`, `mir_unop_generated` state the
+  operator equations; `spec_binop_generated` says the same of `Spec`'s operator
   semantics at all eight integer types.
 
   What keeps the `_partial`: (1) types other than `i32`/`bool`/`()` (the other
   seven integer types, floats), `/` and `%` are outside the composed theorem —
   the lowering model's values are `i32` payloads; they are covered per operator
-  by T1–T3 and for whole programs by the differential run; (2) the model
-  leaves out `drop` instructions, `stack_slots` / frames and the layout of
-  structured MIR as a label CFG (the driver lays it out for the comparison with
-  real MIR; no proved function); (3) below MIR: LIR control flow
-  (src/lir/lower.rs blocks / jumps / stack slots) and Cranelift are exercised by
-  the differential run, not modelled; T4 `dce_preserves` is proved for any CFG
-  and semantics but is not composed with this theorem for the same reason as (2).
+  by T1–T3 / `spec_binop_generated` and for whole programs by the differential
+  run; (2) the model leaves out `drop` instructions, `stack_slots` / frames and
+  the layout of structured MIR as a label CFG (the driver lays it out for the
+  comparison with real MIR; no proved function), so T4 `dce_preserves` (proved
+  for any CFG and semantics) is not composed with this theorem; (3) below MIR:
+  LIR control flow (src/lir/lower.rs blocks / jumps / stack slots) and Cranelift
+  are exercised by the differential run, not modelled.
 -/
 import RotoV.Lemmas.C01Agree
 import RotoV.Lemmas.C01Shape
 import RotoV.Lemmas.C01MirOps
 import RotoV.Lemmas.C01SpecOps
+import RotoV.Lemmas.C01ScalarCode
 import RotoV.Props.C08
 import RotoV.Model.NativeFloat
 
 namespace RotoV.C01Lower
 open RotoV RotoV.C01Resolve RotoV.C01Agree RotoV.LowerS RotoV.C01MirRun RotoV.C01MirOps
 open RotoV.Gen RotoV.Gen.OpTables
+open RotoV.C01MirComplete (InRv InR scP scC)
 
 /-! ## the fragment -/
 
@@ -200,6 +206,34 @@ theorem lower_correct_run_partial (fnsS : List Spec.FnDef) (fnsT : List TraceSpe
     cases this
     exact hv'
   · cases hw
+
+/-- **T5 with the generated operators, `lower_correct_tables_partial`.**  For every program of the
+    common fragment, all arguments in the `i32` range and every fuel: if C01's reference interpreter
+    yields `v` for a call of `main`, then for every sufficiently large fuel the executable semantics
+    `C01MirRun.runMain` — the structured MIR emitted by the lowering model, every `binop` / `neg` /
+    `not` of which is computed by the GENERATED table composition (`lower_binop`, then the generated
+    codegen arm on CLIF semantics) — returns exactly (the encoding of) `v`.
+    (`resolve_scalar`: the lowered program is scalar code; `execC_complete`: on scalar code the
+    table-based semantics reproduces every execution of the relational one, the integers staying
+    in range; `lower_correct_partial`.) -/
+theorem lower_correct_tables_partial (fnsS : List Spec.FnDef) (fnsT : List TraceSpec.FnDef) (P : Prog)
+    (hres : resolve fnsS = some fnsT) (hP : lowerProg fnsT = some P)
+    (fuel : Nat) (args : List Spec.Val) (args' : List TraceSpec.Val) (henc : encArgs args = some args')
+    (hargs : ∀ a ∈ args', InRv a) (v : Spec.Val) (h : Spec.run fnsS fuel args = .ok v) :
+    ∃ v', encVal v = some v' ∧ ∃ n, ∀ m, n ≤ m → runMain fnsT P m args' = some v' := by
+  obtain ⟨fd, code, cenv, v', hlast, hcode, hPc, hb, hv', ⟨t, hex⟩, _⟩ :=
+    lower_correct_partial fnsS fnsT P hres hP fuel args args' henc v h
+  have hsc : scP P := C01ScalarCode.resolve_scalar fnsS fnsT P hres hP
+  have hin : InR (storeOfEnv cenv) :=
+    C01MirComplete.InR_of_env (C01MirComplete.InR_storeOfEnv fd.params args' [] cenv hb hargs (by simp))
+  obtain ⟨⟨n, hn⟩, _⟩ := C01MirComplete.execC_complete hsc hex (hsc _ _ _ hPc) hin
+  exact ⟨v', hv', n, fun m hm => by simp only [runMain, hlast, hPc, hb, hn m hm]⟩
+
+/-- non-vacuity: the arguments of the demonstration call are in range. -/
+example : ∀ a ∈ [TraceSpec.Val.int 5], InRv a := by
+  intro a ha n hn
+  simp only [List.mem_singleton] at ha
+  subst ha; cases hn; decide
 
 /-- non-vacuity: on the demonstration program the executable model returns, with the same value. -/
 example : (letI : FloatOps := nativeFloatOps
